@@ -139,6 +139,8 @@ where
         let compression_level = self.compression_level;
 
         rayon::spawn(move || {
+            #[cfg(noodles_verif)]
+            let _verif_scope = crate::verif::task_scope(crate::verif::Task::Deflate, &src);
             let result = compress(&src, compression_level);
             buffered_tx.send(result).ok();
         });
